@@ -30,4 +30,4 @@ with open(out+'/all.prof','w') as w:
 E
 go tool cover -func=$out/all.prof > $out/all.func 2>/dev/null
 tail -1 $out/all.func
-rm -f bin/*.cover.test
+for id in $ids; do rm -f bin/$id.cover.test; done
